@@ -41,6 +41,11 @@ def run(rep):
 
     explore.explore(rep, 'family-d1', fam, 1, bases, 'checks.oracles:oracle_c05', budget_s=900)
 
+    # two deviations for the consumers that mix a multi-topic ephemeral source with a synchronized one (a partial ephemeral set has to
+    # stay partial across the blocking poll and the non-blocking re-check that follows it)
+    explore.explore(rep, 'mixed2topics-d2', [s for s in fam if s['name'].startswith('mixed2topics/') and s['name'].endswith('/p40')], 2, bases[:1],
+                    'checks.oracles:oracle_c05', budget_s=900)
+
     # "never delays the publisher": differential timing on the default schedule (ephemeral-rejoin changes the sink's inputs, so it is excluded)
     items = [(s, b) for s in fam if not s['name'].startswith('ephemeral-rejoin') for b in bases]
     ndiff = 0
